@@ -338,6 +338,9 @@ func main() {
 		vlib.Infra("build probes: %v", b.err)
 	}
 	perVariant := 2
+	if thorough {
+		perVariant = 3
+	}
 	var servers []*server
 	for _, v := range variants {
 		s := &server{variant: v.Name, fed: v.Name == "fed"}
